@@ -8,6 +8,8 @@ import (
 	"sync/atomic"
 	"time"
 
+	"github.com/cube2222/octosql/execution"
+	"github.com/cube2222/octosql/octosql"
 	"github.com/cube2222/octosql/verifhook"
 
 	"verifharness/engine"
@@ -17,7 +19,7 @@ import (
 
 // The hook variables are written once, before any query runs (the JSON worker pool lives for the whole process and reads them);
 // the per-case behaviour is swapped through atomics so that the harness itself adds no data race.
-var curWorker, curReader atomic.Value // of hookFn
+var curWorker, curReader, curConsumer atomic.Value // of hookFn
 
 type hookFn struct{ f func(first, n int) }
 
@@ -25,6 +27,12 @@ func init() {
 	cmds["file-run"] = fileRun
 	curWorker.Store(hookFn{})
 	curReader.Store(hookFn{})
+	curConsumer.Store(hookFn{})
+	verifhook.JSONConsumerFn = func(first, n int) {
+		if h := curConsumer.Load().(hookFn); h.f != nil {
+			h.f(first, n)
+		}
+	}
 	verifhook.JSONWorkerFn = func(first, n int) {
 		if h := curWorker.Load().(hookFn); h.f != nil {
 			h.f(first, n)
@@ -66,6 +74,9 @@ func fileRun(args []string) error {
 		}
 		curWorker.Store(hookFn{})
 		curReader.Store(hookFn{})
+		curConsumer.Store(hookFn{})
+		engine.OnRecord = nil
+		var trace []interface{}
 		stop := make(chan struct{})
 		switch kind, _ := hook["kind"].(string); kind {
 		case "delay":
@@ -80,6 +91,36 @@ func fileRun(args []string) error {
 					time.Sleep(time.Duration(r.Intn(200)) * time.Microsecond)
 				}
 			}})
+		case "trace":
+			// every observation point appends an event under one lock: the sequence is a linearisation consistent with each goroutine's
+			// program order and with the channel hand-overs (an event is logged before the send that publishes its effect)
+			seed := int64(vals.Int(hook["seed"]))
+			var tmu sync.Mutex
+			log := func(e map[string]interface{}) {
+				tmu.Lock()
+				trace = append(trace, e)
+				tmu.Unlock()
+			}
+			curReader.Store(hookFn{func(first, n int) { log(map[string]interface{}{"e": "read", "first": first, "n": n}) }})
+			curWorker.Store(hookFn{func(first, n int) {
+				if seed != 0 {
+					r := rand.New(rand.NewSource(seed*1000003 + int64(first)))
+					time.Sleep(time.Duration(r.Intn(200)) * time.Microsecond)
+				}
+				log(map[string]interface{}{"e": "parsed", "first": first, "n": n})
+			}})
+			curConsumer.Store(hookFn{func(first, n int) { log(map[string]interface{}{"e": "take", "first": first, "n": n}) }})
+			slow := vals.Int(hook["slow_every"])
+			engine.OnRecord = func(i int, rec execution.Record) {
+				if slow > 0 && i%slow == 0 {
+					time.Sleep(150 * time.Microsecond) // a slow consumer lets the reader run up to the token limit
+				}
+				id := int(rec.Values[0].Int)
+				if rec.Values[0].TypeID == octosql.TypeIDFloat {
+					id = int(rec.Values[0].Float)
+				}
+				log(map[string]interface{}{"e": "row", "i": id})
+			}
 		case "order":
 			// batches are handed over in exactly this order (a worker blocks in the hook until its batch is released)
 			batch := vals.Int(hook["batch"])
@@ -110,6 +151,8 @@ func fileRun(args []string) error {
 		close(stop)
 		curWorker.Store(hookFn{})
 		curReader.Store(hookFn{})
+		curConsumer.Store(hookFn{})
+		engine.OnRecord = nil
 		ids := make([]interface{}, len(r.Records))
 		for i, rec := range r.Records {
 			if len(rec.Values) > 0 {
@@ -122,7 +165,12 @@ func fileRun(args []string) error {
 				rowsJSON = append(rowsJSON, vals.FromValues(rec.Values))
 			}
 		}
-		w.Write(map[string]interface{}{"id": c["id"], "stage": r.Stage, "err": fmt.Sprint(r.Err), "first": ids, "rows": rowsJSON, "ms": time.Since(t0).Milliseconds()})
+		res := map[string]interface{}{"id": c["id"], "stage": r.Stage, "err": fmt.Sprint(r.Err), "first": ids, "rows": rowsJSON, "ms": time.Since(t0).Milliseconds()}
+		if trace != nil {
+			res["trace"] = trace
+			res["first"] = []interface{}{} // the rows are in the trace
+		}
+		w.Write(res)
 		return nil
 	})
 }
